@@ -15,10 +15,11 @@ Proof. exact scan_render. Qed.
 Print Assumptions C19_scan_render.
 
 (* the same for _get_attribute_docstring on a class whose source (class docstring cut out) is the printed
-   layout; the class-docstring entry is the oracle's (docstring_parser) answer for that very field *)
+   layout; the class-docstring entry is the oracle's (docstring_parser) answer for that very field, and a class
+   that does not declare the field still answers with that entry alone *)
 Theorem C19_scan_class_render : forall k L f,
   wf_layout L = true -> code_lines k = Some (render L) ->
-  scan_class_gen k f = option_map (fun d => parts_of d (last_assoc f (k_args k) "")) (docs L f).
+  scan_class_gen k f = scan_of (docs L f, last_assoc f (k_args k) "").
 Proof. exact scan_class_render. Qed.
 Print Assumptions C19_scan_class_render.
 
@@ -33,57 +34,42 @@ Proof. exact help_string_chain_same. Qed.
 Print Assumptions C19_help_string_chain.
 
 (* MRO accumulation: every part is the first non-empty one among the classes of the chain, nearest first *)
-Theorem C19_nearest_class : forall scans p,
+Theorem C19_accumulation : forall scans p,
   get_part p (result_of (acc_pure_gen scans None)) = nearest_part p scans.
 Proof. exact nearest_class. Qed.
+Print Assumptions C19_accumulation.
+
+(* against the spec, full strength: each kind of documentation comes from the nearest class of the chain that
+   PROVIDES it - next to its own declaration, or in its class docstring whether or not it re-declares the field.
+   chain: per class (documentation next to the declaration or None, class-docstring entry). *)
+Theorem C19_nearest_class : forall chain,
+  parts_prov (result_of (acc_pure_gen (map scan_of chain) None)) = spec_parts (map prov_of chain).
+Proof. exact nearest_class_spec. Qed.
 Print Assumptions C19_nearest_class.
 
-(* against the spec (each kind from the nearest class that PROVIDES it).  Full strength is false of the code:
-   a class that documents an inherited field only in its class docstring is skipped ... *)
-Theorem C19_nearest_class_refuted :
-  exists chain, parts_prov (result_of (acc_pure_gen (map scan_of chain) None)) <> spec_parts (map prov_of chain).
-Proof. exact nearest_class_refuted. Qed.
-Print Assumptions C19_nearest_class_refuted.
+(* the lru_cache: a query is the pure accumulation over the MRO ... *)
+Theorem C19_query_pure : forall scan mro,
+  fst (get_doc_gen scan mro []) = result_of (acc_pure_gen (map scan mro) None).
+Proof. exact get_doc_pure. Qed.
+Print Assumptions C19_query_pure.
 
-(* ... and it holds whenever class-docstring entries are written only by classes that declare the field *)
-Theorem C19_nearest_class_partial : forall chain,
-  forallb entry_declared chain = true ->
-  parts_prov (result_of (acc_pure_gen (map scan_of chain) None)) = spec_parts (map prov_of chain).
-Proof. exact nearest_class_partial. Qed.
-Print Assumptions C19_nearest_class_partial.
-
-(* the lru_cache: on a fresh cache get_attribute_docstring is the pure accumulation ... *)
-Theorem C19_first_query_pure : forall scan mro,
-  NoDup mro -> fst (get_doc_gen scan mro []) = result_of (acc_pure_gen (map scan mro) None).
-Proof. exact get_doc_fresh. Qed.
-Print Assumptions C19_first_query_pure.
-
-(* ... but answers are history dependent: the cached object of the first defining class is updated in place *)
-Theorem C19_history_independent_refuted :
-  exists (scan : string -> option parts) (mroD mroA : list string),
-    NoDup mroD /\ NoDup mroA /\
-    nth 1 (run_queries_gen scan [mroD; mroA] []) EMPTY_PARTS <> fst (get_doc_gen scan mroA []).
-Proof. exact history_independent_refuted. Qed.
-Print Assumptions C19_history_independent_refuted.
-
-(* ... and on a LINEAR hierarchy (every queried MRO is a suffix of one duplicate-free chain: single inheritance)
-   every history of queries is answered as on a fresh cache *)
-Theorem C19_history_independent_partial : forall scan chain qs,
-  NoDup chain -> forallb (fun q => suffixb q chain) qs = true ->
+(* ... and answers are history independent: any classes, any hierarchy (multiple inheritance included), any order
+   of earlier queries - the accumulated object is a copy, cached objects are never modified *)
+Theorem C19_history_independent : forall scan qs,
   run_queries_gen scan qs [] = map (fun mro => fst (get_doc_gen scan mro [])) qs.
-Proof. exact history_independent_partial. Qed.
-Print Assumptions C19_history_independent_partial.
+Proof. exact history_independent. Qed.
+Print Assumptions C19_history_independent.
 
 (* non-vacuity: a concrete layout inside the theorem's domain, what it prints and what the scanner answers *)
 Definition demo : layout :=
-  mklayout ["@dataclass(frozen=True)"; "class Opt(Base):"; "    """""""; """"""""] 4
+  mklayout ["@dataclass(frozen=True)"; "class Opt(Base):  # noqa"; "    """""""; """"""""] 4
     [ mkfld "lr" "float" (Some "1e-3") 0 ["learning rate"; "second line"] (Some "inline lr") None;
       mkfld "lr_decay" "float" None 1 [] None (Some (DMulti Sq "" ["decay of lr"; ""; "more"] ""));
       mkfld "name" "str" (Some """run 1""") 2 ["above name"] None (Some (DOne Dq "doc of name")) ] 1.
 
 Example C19_nonvacuous :
   wf_layout demo = true
-  /\ render demo = ["@dataclass(frozen=True)"; "class Opt(Base):"; "    """""""; """""""";
+  /\ render demo = ["@dataclass(frozen=True)"; "class Opt(Base):  # noqa"; "    """""""; """""""";
                     "    # learning rate"; "    # second line"; "    lr: float = 1e-3  # inline lr";
                     ""; "    lr_decay: float"; "    '''"; "    decay of lr"; "    "; "    more"; "    '''";
                     ""; ""; "    # above name"; "    name: str = ""run 1"""; "    """"""doc of name"""""""; ""]
@@ -91,5 +77,12 @@ Example C19_nonvacuous :
   /\ scan_lines_gen (render demo) "lr_decay" = Some ("", "", join_text [""; "decay of lr"; ""; "more"; ""])
   /\ scan_lines_gen (render demo) "name" = Some ("above name", "", "doc of name")
   /\ scan_lines_gen (render demo) "l" = None
-  /\ forallb (fun q => suffixb q ["C"; "B"; "A"]) [["A"]; ["C"; "B"; "A"]; ["B"; "A"]] = true.
+  (* the former counterexamples, now positive instances: B(A) documents inherited x only in its class docstring *)
+  /\ p_cls (result_of (acc_pure_gen (map scan_of [(None, "entry in B"); (Some (mkfdoc "" "" ""), "entry in A")]) None))
+     = "entry in B"
+  (* D(A, X) queried before A: A.x does not show X's docstring *)
+  /\ p_below (nth 1 (run_queries_gen
+                       (fun k => if String.eqb k "A" then Some (mkparts "" "inline of A.x" "" "")
+                                 else if String.eqb k "X" then Some (mkparts "" "" "below of X.x" "") else None)
+                       [["D"; "A"; "X"]; ["A"]] []) EMPTY_PARTS) = "".
 Proof. vm_compute. repeat split; reflexivity. Qed.
